@@ -59,7 +59,7 @@ def cases(tier, seed, info):
                 for entry in entries:
                     for clean in (True, False):
                         for hexm in ([False, True] if s['mode'] == 'file' else [False]):
-                            out.append(dict(mode=s['mode'], fault=s['fault'], pos=pos, entry=entry,
+                            out.append(dict(mode=s['mode'], fault=s['fault'], err=s['err'], pos=pos, entry=entry,
                                             clean=clean, hex=hexm, pel=p, data=data,
                                             hidden=encode.encode(hidden)))
     return out
@@ -67,6 +67,14 @@ def cases(tier, seed, info):
 
 class _Log(list):
     pass
+
+
+def _raise(kind, what):
+    if kind == 'EPIPE':
+        raise BrokenPipeError(errno.EPIPE, 'Broken pipe (injected at %s)' % what)
+    if kind == 'ENOSPC':
+        raise OSError(errno.ENOSPC, 'No space left on device (injected at %s)' % what)
+    raise OSError(errno.EIO, 'Input/output error (injected at %s)' % what)
 
 
 class FaultyFile:
@@ -79,7 +87,7 @@ class FaultyFile:
 
     def _fail(self, what):
         self.log.append(what + '_fail')
-        raise OSError(errno.ENOSPC, 'No space left on device (injected)')
+        _raise(self.plan.get('err', 'ENOSPC'), what)
 
     def write(self, s):
         k = self.nwrites
@@ -140,7 +148,7 @@ class FaultyStdout(io.TextIOBase):
         self.nwrites += 1
         if self.plan.get('write') is not None and k >= self.plan['write']:
             self.log.append('write_fail')
-            raise BrokenPipeError(errno.EPIPE, 'Broken pipe (injected)')
+            _raise(self.plan.get('err', 'EPIPE'), 'stdout write')
         if k == 0:
             self.log.append('write_ok')
         self.buf.append(s)
@@ -151,7 +159,7 @@ class FaultyStdout(io.TextIOBase):
             return
         if self.plan.get('flush'):
             self.log.append('flush_fail')
-            raise OSError(errno.EIO, 'Input/output error (injected)')
+            _raise(self.plan.get('err', 'EIO'), 'stdout flush')
         self.delivered.extend(self.buf)
         self.buf = []
         self.log.append('flush_ok')
@@ -191,7 +199,7 @@ def run_case(case):
     seams.write_file(in_path, content)
     before = hashlib.sha256(content).hexdigest()
     log = _Log()
-    plan = {}
+    plan = {'err': case.get('err', 'EIO')}
     if mode == 'json':
         nw = len(expected_json)          # writelines(str) writes character by character
     else:
@@ -211,7 +219,7 @@ def run_case(case):
         if isinstance(file, str) and os.path.dirname(os.path.abspath(file)) == out_dir and 'w' in mode_:
             if fault == 'open':
                 log.append('open_fail')
-                raise OSError(errno.ENOSPC, 'No space left on device (injected)')
+                _raise(case.get('err', 'ENOSPC'), 'open')
             real = real_open(file, mode_, *a, **kw)
             log.append('open_ok')
             opened.append(file)
@@ -274,7 +282,7 @@ def run_case(case):
             complete = text == expected_json + '\n'
     shutil.rmtree(work, ignore_errors=True)
     ok_shape = all(isinstance(e, str) for e in log)
-    return [dict(shape_ok=ok_shape, mode=mode, entry=case['entry'], fault=fault, pos=case['pos'],
+    return [dict(shape_ok=ok_shape, mode=mode, entry=case['entry'], fault=fault, err=case.get('err', ''), pos=case['pos'],
                  clean=case['clean'], hex=case['hex'], pel=case['pel'], events=list(log),
                  input_present_after=present, input_unchanged=bool(unchanged), out_complete=bool(complete),
                  uncaught=uncaught or '')]
@@ -283,14 +291,19 @@ def run_case(case):
 def nontrivial(r):
     if r['fault'] == 'none' and r['input_present_after']:
         return None
-    return (r['mode'], r['entry'], r['fault'], r['pos'], r['clean'], r['hex'], r['pel'])
+    return (r['mode'], r['entry'], r['fault'], r['err'], r['pos'], r['clean'], r['hex'], r['pel'])
 
 
 def fingerprint(r, clauses):
-    return 'C12:%s:%s:%s:fault=%s:clean=%s:hex=%s' % ('+'.join(clauses), r['mode'], r['entry'], r['fault'],
-                                                      r['clean'], r['hex'])
+    return 'C12:%s:%s:%s:fault=%s/%s:clean=%s:hex=%s' % ('+'.join(clauses), r['mode'], r['entry'], r['fault'],
+                                                         r['err'], r['clean'], r['hex'])
 
 
 def sample(r):
-    return {k: r[k] for k in ('mode', 'entry', 'fault', 'pos', 'clean', 'hex', 'events',
+    return {k: r[k] for k in ('mode', 'entry', 'fault', 'err', 'pos', 'clean', 'hex', 'events',
                               'input_present_after', 'out_complete')}
+
+
+def corrupt(r):
+    r['events'] = ['remove'] + r['events']
+    return r
